@@ -26,6 +26,16 @@ value (as a sub-sequence of the header's enumerator list: O(n) kernel string com
 Enumerator names are unique identifiers in C, so this fixes the value of every vouched name. -/
 theorem C19_values : ∀ k ∈ kinds, k.2.2.Sublist k.2.1 := by decide +kernel
 
+/-- no name is published for an element ID the standard reserves (a freshly added name with a wrong number lands on
+a reserved ID or on a number that is already taken - the latter is `C19_distinct`) -/
+theorem C19_no_reserved_tag : ∀ p ∈ Gen.enum_libwifi_tag_numbers, p.2 ∉ Spec.ieeeReservedTag := by decide +kernel
+
+/-- and the name lookup answers every reserved ID with the unknown-tag string -/
+theorem C19_reserved_unknown : ∀ n ∈ Spec.ieeeReservedTag, Model.tagName n = Gen.tagNameDefault := by decide +kernel
+
+/-- the reserved list is the 83-number list of the standard's table (non-vacuity of the two statements above) -/
+theorem C19_reserved_count : Spec.ieeeReservedTag.length = 83 ∧ (149 : Int) ∈ Spec.ieeeReservedTag ∧ (148 : Int) ∉ Spec.ieeeReservedTag := by decide +kernel
+
 theorem C19_values_pointwise (k) (hk : k ∈ kinds) (name : Name) (w : Int)
     (hi : (name, w) ∈ k.2.2) : (name, w) ∈ k.2.1 :=
   (C19_values k hk).subset hi
